@@ -533,6 +533,10 @@ class Engine:
                     raise UB('uninit-read', 'projection into moved-out/uninitialised value')
                 raise Unsupported('projection .%s into %r' % (p, v))
             if p >= len(v.fields):
+                if v.name == '?' and isinstance(p, int):
+                    # a block that was initialised field by field (ptr::write of the leading fields): the rest is uninitialised memory
+                    v = UNINIT
+                    continue
                 raise Unsupported('field %s out of range in %r' % (p, v))
             v = v.fields[p]
         return v
